@@ -6,7 +6,7 @@ import os
 import vlib
 
 VM = os.path.join(vlib.SPEC, "vm")
-SCENARIOS = [1, 2, 3, 4, 5, 6]
+SCENARIOS = [1, 2, 3, 4, 5, 6, 7]
 
 KINDS = {
     "C11": {"nested-run", "run-queue-differs-from-model", "step-outside-run", "ran-after-main-finished", "budget-exceeded",
